@@ -179,10 +179,20 @@ def run(ctx):
                     chains.append({"k": "chain", "c1": c1, "c2": c2, "side": side, "nq": 2})
     if len(chains) < 500:
         raise TLCError("only %d chains assembled" % len(chains))
+    # deterministic selection (TLC's emission order varies with the worker schedule): distinct chains sorted by content; every
+    # chain whose evolving object is the LEFT operand (the in-place flavours apply) is kept, the others are sampled
+    uniq = {}
+    for ch in chains:
+        uniq.setdefault(key([ch["c1"]["op"], ch["c1"]["x"], ch["c1"]["y"], ch["c2"]["op"], ch["c2"]["x"], ch["c2"]["y"], ch["side"]]), ch)
+    chains = [uniq[k_] for k_ in sorted(uniq)]
     rng_ = __import__("random").Random(ctx.seed)
-    lim = 6000 if quick else 60000
-    if len(chains) > lim:
-        chains = rng_.sample(chains, lim)
+    left = [ch for ch in chains if ch["side"] == "x"]
+    right = [ch for ch in chains if ch["side"] != "x"]
+    lim = 3000 if quick else 60000
+    if len(right) > lim:
+        right = rng_.sample(right, lim)
+    chains = left + right
+    ctx.note("chains: %d with the evolving object on the left (all replayed), %d with it on the right" % (len(left), len(right)))
     for ch, fails in zip(chains, ctx.pmap(check_chain, chains, chunksize=64)):
         ctx.count({"k": "chain", "first": [ch["c1"]["op"], ch["c1"]["x"], ch["c1"]["y"]], "second": [ch["c2"]["op"], ch["side"]]}, kind="chain:%s-%s" % (ch["c1"]["op"], ch["c2"]["op"]))
         for key_, msg in fails:
